@@ -259,6 +259,7 @@ type Exec struct {
 	retSub     map[int64]bool
 	simVariant string
 	simLimit   int64
+	simFast    bool
 	relMode    bool
 	allocMode  bool
 	sharedTables map[string]bool
